@@ -1,0 +1,102 @@
+//go:build verif
+// +build verif
+
+package dosnode
+
+import (
+	"context"
+	"math/big"
+
+	"github.com/DOSNetwork/core/log"
+	"github.com/DOSNetwork/core/onchain"
+	"github.com/DOSNetwork/core/p2p"
+	"github.com/DOSNetwork/core/share"
+	dkg "github.com/DOSNetwork/core/share/dkg/pedersen"
+	vss "github.com/DOSNetwork/core/share/vss/pedersen"
+	"github.com/DOSNetwork/core/suites"
+)
+
+// Hooks for the verification harness (/verif). Built only with -tags verif.
+
+// VerifNewNode wires a DosNode to injected doubles.
+func VerifNewNode(p p2p.P2PInterface, chain onchain.ProxyAdapter, d dkg.PDKGInterface, id []byte, logger log.Logger, reqBuf int) *DosNode {
+	ctx, cancel := context.WithCancel(context.Background())
+	return &DosNode{
+		ctx:          ctx,
+		cancel:       cancel,
+		suite:        suites.MustFind("bn256"),
+		p:            p,
+		chain:        chain,
+		dkg:          d,
+		done:         make(chan interface{}),
+		reqSignc:     make(chan request, reqBuf),
+		cRequestDone: make(chan [4]*big.Int),
+		id:           id,
+		logger:       logger,
+	}
+}
+
+// VerifQueryLoop runs the signature-share collector loop (returns when the node is cancelled).
+func (d *DosNode) VerifQueryLoop() { d.queryLoop() }
+
+// VerifCancel cancels the node context.
+func (d *DosNode) VerifCancel() { d.cancel() }
+
+// VerifRegister registers interest in a request with the collector loop; shares are
+// delivered on the returned channel. Returns false if ctx ended first.
+func (d *DosNode) VerifRegister(ctx context.Context, requestID string, threshold int, reply chan *vss.Signature) bool {
+	req := request{ctx: ctx, requestID: requestID, threshold: threshold, reply: reply}
+	select {
+	case <-ctx.Done():
+		return false
+	case d.reqSignc <- req:
+		return true
+	}
+}
+
+// VerifHandleQuery runs the whole query pipeline for one request.
+func (d *DosNode) VerifHandleQuery(ids [][]byte, pubPoly *share.PubPoly, sec *share.PriShare, groupID string, requestID, lastRand, useSeed *big.Int, url, selector string, pType uint32) {
+	d.handleQuery(ids, pubPoly, sec, groupID, requestID, lastRand, useSeed, url, selector, pType)
+}
+
+func VerifPadOrTrim(bb []byte, size int) []byte { return padOrTrim(bb, size) }
+
+func VerifChoseSubmitter(ctx context.Context, p p2p.P2PInterface, e onchain.ProxyAdapter, lastSysRand *big.Int, ids [][]byte, outCount int, logger log.Logger) ([]chan []byte, chan error) {
+	return choseSubmitter(ctx, p, e, lastSysRand, ids, outCount, logger)
+}
+
+func VerifGenSysRandom(ctx context.Context, submitterc chan []byte, lastSysRand []byte, logger log.Logger) chan []byte {
+	return genSysRandom(ctx, submitterc, lastSysRand, logger)
+}
+
+func VerifGenUserRandom(ctx context.Context, submitterc chan []byte, requestId, lastSysRand, userSeed []byte, logger log.Logger) chan []byte {
+	return genUserRandom(ctx, submitterc, requestId, lastSysRand, userSeed, logger)
+}
+
+func VerifGenQueryResult(ctx context.Context, submitterc chan []byte, url, pathStr string, logger log.Logger) (chan []byte, chan error) {
+	return genQueryResult(ctx, submitterc, url, pathStr, logger)
+}
+
+func VerifDataParse(rawMsg []byte, pathStr string) ([]byte, error) { return dataParse(rawMsg, pathStr) }
+
+func VerifGenSign(ctx context.Context, contentc chan []byte, sec *share.PriShare, suite suites.Suite, sign *vss.Signature, logger log.Logger) (chan *vss.Signature, chan error) {
+	return genSign(ctx, contentc, sec, suite, sign, logger)
+}
+
+func (d *DosNode) VerifDispatchSign(ctx context.Context, submitterc chan []byte, signc chan *vss.Signature, requestID []byte, threshold int) chan *vss.Signature {
+	return dispatchSign(ctx, submitterc, signc, d.reqSignc, d.p, requestID, threshold, d.logger)
+}
+
+func VerifRecoverSign(ctx context.Context, signc chan *vss.Signature, suite suites.Suite, pubPoly *share.PubPoly, nbThreshold, nbParticipants int, logger log.Logger) (chan *vss.Signature, chan error) {
+	return recoverSign(ctx, signc, suite, pubPoly, nbThreshold, nbParticipants, logger)
+}
+
+func VerifReportQueryResult(ctx context.Context, chain onchain.ProxyAdapter, queryType uint32, signC chan *vss.Signature) chan error {
+	return reportQueryResult(ctx, chain, queryType, signC)
+}
+
+func VerifMergeErrors(ctx context.Context, cs ...chan error) chan error { return mergeErrors(ctx, cs...) }
+
+func VerifFanIn(ctx context.Context, channels ...chan *vss.Signature) chan *vss.Signature {
+	return fanIn(ctx, channels...)
+}
